@@ -39,6 +39,20 @@ def trace_corruption():
     exp = {"flipped": 6, "dropped": 3, "notdone": 7}
     print("  (a) AlgLoopTrace: rejected %s ; expected %s and 'good' accepted" % (rej, exp))
     ok &= (rej == exp)
+    # the whole-stream nesting trace spec: an app (algorithm 1) whose update runs an inner loop of algorithm 2
+    n = lambda e, o, i, mi, v=False: {"e": e, "o": o, "iter": i, "max_iter": mi, "done": v}
+    good = [n("rb", 1, 0, 1), n("done", 1, 0, 1), n("ub", 1, 0, 1), n("done", 2, 0, 1), n("ub", 2, 0, 1), n("ue", 2, 1, 1), n("done", 2, 1, 1, True),
+            n("ue", 1, 1, 1), n("done", 1, 1, 1, True), n("re", 1, 1, 1)]
+    cross = good[:5] + [good[7], good[5], good[6]] + good[8:]       # outer update closed before the inner one (not LIFO)
+    nodone = good[:1] + good[2:]                                    # App.run updates without asking done()
+    early = good[:8] + good[9:]                                     # run left without done() == True
+    twice = good[:3] + [n("ub", 1, 0, 1)] + good[3:]               # update re-entered
+    cases = [("good", good), ("cross", cross), ("nodone", nodone), ("early", early), ("twice", twice)]
+    traces = [{"id": k, "iter0": [0, 0], "budget0": [1, 1], "max_unwind": 0, "ev": ev} for k, ev in cases]
+    res, rej = tracecheck.validate("NestedTrace", traces, tlc.fresh_dir("selftest_nested"), constants=["Objs <- MCObjs", "Budgets = {0}", "MaxDepth = 1000000"], defs="MCObjs == 1..2\n")
+    exp = {"cross": 6, "nodone": 2, "early": 9, "twice": 4}
+    print("  (a) NestedTrace: rejected %s ; expected %s and 'good' accepted" % (rej, exp))
+    ok &= (rej == exp)
     return ok
 
 
@@ -49,6 +63,8 @@ CORRUPTIONS = [
     ("ElementMaps.tla", "DefaultShift(n, m) == Max2((n \\div 2) - (m \\div 2), 0)", "DefaultShift(n, m) == Max2(((n + 1) \\div 2) - (m \\div 2), 0)", "index_maps", "index_maps", "C09"),
     ("Conv.tla", "Offset(c, d) == IF c.mode = \"full\" THEN 0 ELSE Min2(c.m[d], c.n[d]) - 1", "Offset(c, d) == IF c.mode = \"full\" THEN 0 ELSE Min2(c.m[d], c.n[d])", "conv", "conv", "C08"),
     ("Fourier.tla", "Exponent(m, c, sgn, k, n) == (sgn * (k - c) * (n - c)) % m", "Exponent(m, c, sgn, k, n) == (sgn * (k - c) * (n - c + 1)) % m", "fourier", "fourier", "C05"),
+    ("ADMM.tla", "StepU(xx, zz, uu) == TLCEval([i \\in 1..N |-> RAdd(uu[i], RSub(RAdd(", "StepU(xx, zz, uu) == TLCEval([i \\in 1..N |-> RSub(uu[i], RSub(RAdd(", "splitting", "splitting", "C15"),
+    ("Newton.tla", "TooLong == RLt(RSub(F(x), RMul(RDiv(alpha, RInt(2)), lam2)), F(Move(x, alpha, dir)))", "TooLong == RLt(RSub(F(x), RMul(alpha, lam2)), F(Move(x, alpha, dir)))", "splitting", "splitting", "C15"),
     ("Trap.tla", "SlewLimit == Designed => RLe(RDiv(des.peak, RInt(des.r)), RInt(1))", "SlewLimit == Designed => RLe(RDiv(des.peak, RInt(des.r)), R(1, 2))", "trap", "trap", "C20"),
 ]
 
